@@ -81,13 +81,24 @@ func (fp *FilePath) Write(b []byte) (n int, err error) {
 	return n, nil
 }
 
+// resolvedName returns the name of the directory the path items resolve to when they are joined the way ReadPath
+// joins them, so that "." and ".." items and separators inside an item cannot disguise the directory.
+func (fp *FilePath) resolvedName() string {
+	var subPath string
+	for _, pathItem := range fp.Items {
+		subPath = filepath.Join("/", subPath, string(pathItem.Name))
+	}
+
+	return filepath.Base(subPath)
+}
+
 // IsDropbox checks if a FilePath matches the special drop box folder type
 func (fp *FilePath) IsDropbox() bool {
 	if fp.Len() == 0 {
 		return false
 	}
 
-	return strings.Contains(strings.ToLower(string(fp.Items[fp.Len()-1].Name)), "drop box")
+	return strings.Contains(strings.ToLower(fp.resolvedName()), "drop box")
 }
 
 func (fp *FilePath) IsUploadDir() bool {
@@ -95,7 +106,7 @@ func (fp *FilePath) IsUploadDir() bool {
 		return false
 	}
 
-	return strings.Contains(strings.ToLower(string(fp.Items[fp.Len()-1].Name)), "upload")
+	return strings.Contains(strings.ToLower(fp.resolvedName()), "upload")
 }
 
 func (fp *FilePath) Len() uint16 {
